@@ -34,7 +34,7 @@ func init() {
 		}
 	}
 	propMetas["C08"] = propMeta{Level: "exploration",
-		Rule:        "one case = one simulated world (tape) executed 3 times in one long-lived process (M1) plus, for every 25th case, once more as the first world of a fresh OS process with another map hash seed (M2/M4); the full output log (session JSON, events, segments per call; Inspect/marshal/ExtractTemplates/ChangeLanguage/MigrateToLatest/Clone/query String per flow or group) is compared byte for byte; non-trivial = >= 2 engine calls; distinct = distinct behaviour signature",
+		Rule:        "one case = one simulated world (tape) executed 3 times in one long-lived process (M1), once more on a host without asset cache that re-parses the asset document for every task (M1'), and, for every 4th case, as the first world of a fresh OS process with another map hash seed and in a fresh process right after its sibling world (same tape, other environment) (M2/M4); 1600 further cases run on the instrumented copy under controlled map iteration orders (M3); the full output log (session JSON, events, segments, context walk per call; Inspect/marshal/ExtractTemplates/ChangeLanguage/MigrateToLatest/Clone/PO/query String per flow or group) is compared byte for byte; non-trivial = >= 2 engine calls; distinct = distinct behaviour signature",
 		Assumptions: []string{"M1/M2 sample an iteration order the Go runtime picks; an order-dependent output reached with >= 2 keys differs in a repetition with probability >= 1/2 per site visit"}}
 }
 
